@@ -1,7 +1,7 @@
 // bxdecay0-run suite (property C13): the program's real main(), command-line parser and driver run
 // in-process; argv comes from the plan, output goes to the simulated disk, time() is simulated.
 //
-//   op cl     cat level mode emin_keV emax_keV seed n act_mBq mdl basestyle ; nuclide
+//   op cl     cat level mode emin_keV emax_keV seed n act_mBq mdl basestyle logging ; nuclide
 //             (cat: 0 none 1 dbd 2 background; -1 = option absent for level/mode/emin/emax/seed/n/act)
 //   op junk   pos kind ; token      (malformed command line: insert a token / drop a value / unknown option)
 //   op wfault kind arg              (1 short writes <=arg bytes, 2 ENOSPC after arg bytes, 3 EIO at write #arg, 4 EIO once (not persistent))
@@ -30,6 +30,7 @@ struct Settings
 {
   int cat = 0; std::string nuc; i64 level = -1, mode = -1, emin = -1, emax = -1, seed = -1, n = -1, act_mBq = -1;
   int mdl = 0; int basestyle = 0;
+  int logging = 0; // 0 absent, 1 mute, 2 verbose, 3 debug, 4 an unsupported level (refused), 5 --help (usage only: nothing is generated)
 };
 
 Settings settings_of(const Op & op)
@@ -38,6 +39,7 @@ Settings settings_of(const Op & op)
   s.cat = (int)op.arg(0); s.level = op.arg(1, -1); s.mode = op.arg(2, -1); s.emin = op.arg(3, -1); s.emax = op.arg(4, -1);
   s.seed = op.arg(5, -1); s.n = op.arg(6, -1); s.act_mBq = op.arg(7, -1); s.mdl = (int)op.arg(8); s.basestyle = (int)op.arg(9);
   s.nuc = op.str(0);
+  s.logging = (int)op.arg(10, 0);
   return s;
 }
 
@@ -78,6 +80,8 @@ std::vector<std::string> tokens_of(const Settings & s, const std::string & base)
     t.push_back("--pgop-mdl-cone-theta"); t.push_back(dstr(m.theta));
     t.push_back("--pgop-mdl-cone-aperture"); t.push_back(dstr(m.aperture));
   }
+  if (s.logging >= 1 && s.logging <= 4) { static const char * L[] = {"", "mute", "verbose", "debug", "loud"}; t.push_back(s.logging == 2 ? "--logging" : "-g"); t.push_back(L[s.logging]); }
+  if (s.logging == 5) t.push_back("--help");
   if (s.basestyle == 2) { t.push_back("-b"); t.push_back(base); }
   else if (s.basestyle == 3) { t.insert(t.begin(), base); }   // positional first
   else if (s.basestyle != 4) { t.push_back(base); }           // 4: no basename at all -> refused
@@ -97,6 +101,8 @@ Reference reference_run(const Settings & s)
     if (s.cat == 0) throw std::logic_error("no category");
     if (s.basestyle == 4) throw std::logic_error("no basename");
     if (s.act_mBq == 0) throw std::logic_error("activity must be > 0");
+    if (s.logging == 4) throw std::logic_error("unsupported logging level");
+    if (s.logging == 5) throw std::logic_error("--help: usage is printed, nothing is generated");
     std::default_random_engine engine(seed);
     bxdecay0::std_random prng(engine);
     bxdecay0::decay0_generator g;
@@ -254,7 +260,7 @@ Outcome run_run(const Plan & plan, const RunCtx & ctx)
   out.ctr["fault_enospc_fired"] += fs::stats().enospc;
   out.ctr["simulated_epoch_span_s"] += std::llabs(epoch - 1600000000);
   std::string clclass = std::string(s.cat == 1 ? "dbd" : (s.cat == 2 ? "bkg" : "nocat")) + (s.emin >= 0 || s.emax >= 0 ? "-win" : "") + (s.act_mBq >= 0 ? "-act" : "")
-                        + (s.mdl ? "-mdl" + std::to_string(s.mdl) : "") + (malformed ? "-malformed" : "") + "-b" + std::to_string(s.basestyle);
+                        + (s.mdl ? "-mdl" + std::to_string(s.mdl) : "") + (malformed ? "-malformed" : "") + "-b" + std::to_string(s.basestyle) + (s.logging ? "-g" + std::to_string(s.logging) : "");
   std::string outcome;
   size_t nrec = count_records(rr.d0t);
   if (ref.refused) {
@@ -375,7 +381,9 @@ Plan gen_run(u64 seed, u64 idx, const RunCtx & ctx)
   i64 mdl = r.chance(0.25) ? r.range(1, 4) : 0;
   i64 bst = r.chance(0.8) ? (i64)r.below(4) : 4;
   if (bst == 4 && r.chance(0.7)) bst = 0;
-  c.a = {cat, level, mode, emin, emax, seedv, n, act, mdl, bst}; c.s = {nuc};
+  i64 logging = r.chance(0.75) ? 0 : (r.chance(0.8) ? r.range(1, 3) : r.range(4, 5));
+  if (logging == 3 && n > 6) n = 6; // debug logging prints every event
+  c.a = {cat, level, mode, emin, emax, seedv, n, act, mdl, bst, logging}; c.s = {nuc};
   p.ops.push_back(c);
   if (r.chance(0.14)) {
     static const std::vector<std::string> unknown = {"--frobnicate", "-z", "--nbevents", "-"};
@@ -403,6 +411,7 @@ std::vector<Op> simplify_run(const Op & op)
     if (op.arg(7, -1) >= 0) { Op c = op; c.a[7] = -1; v.push_back(c); }
     if (op.arg(3, -1) >= 0 || op.arg(4, -1) >= 0) { Op c = op; c.a[3] = -1; c.a[4] = -1; v.push_back(c); }
     if (op.arg(9) != 0) { Op c = op; c.a[9] = 0; v.push_back(c); }
+    if (op.arg(10) != 0) { Op c = op; c.a[10] = 0; v.push_back(c); }
   }
   if (op.k == "wfault" && op.arg(1) > 0) { Op c = op; c.a[1] = op.arg(1) / 2; v.push_back(c); }
   return v;
